@@ -320,6 +320,12 @@ def watch_scenarios(tier: str) -> tuple[list[WatchScenario], list[WatchScenario]
     for sc in list(scripted):
         for rv0 in (97, 7):
             scripted.append(WatchScenario(**dict(sc.params, rv0=rv0)))
+    # how the lines of the watch reach the client is the network's business: whole, cut in the middle, in 3-byte reads, with the newline in a
+    # read of its own or leading the next read - the same changes and faults reach processing
+    for framing in ('newline-alone', 'split-mid', 'newline-leads', 'bytes3'):
+        scripted.append(WatchScenario(user=list(changes), pre=['z'], horizon=40.0, framing=framing))
+        for f, at in (('eof', 5.0), ('gone410', 7.0), ('bookmark', 3.0), ('reset', 9.0), ('unknown', 5.0)):
+            scripted.append(WatchScenario(user=sorted(list(changes) + [(at, f)], key=lambda x: x[0]), pre=['z'], horizon=40.0, framing=framing))
     # explorer-placed faults
     searched.append(WatchScenario(user=changes[:4], pre=['z'], horizon=30.0, dev_faults=True, early_user=True, time_dev=True, grid=2.0))
     searched.append(WatchScenario(user=changes[:4], pre=['z'], horizon=30.0, dev_faults=True, early_user=True, time_dev=True, grid=2.0, rv0=97))
